@@ -25,10 +25,30 @@ class Toggle:
         return self.name
 
 
+class ThreadFlag:
+    """A constant whose truthiness depends on WHERE it is looked at (a thread-local / context-dependent switch): plain Python
+    evaluates an activation flag in the calling thread - the differential jobs always call from the thread that imported this
+    module - and so does the scheduler; a pool worker would see the opposite."""
+
+    def __init__(self, name, here):
+        import threading
+
+        self.name, self.here, self.owner = name, here, threading.get_ident()
+
+    def __bool__(self):
+        import threading
+
+        return (threading.get_ident() == self.owner) == self.here
+
+    def __repr__(self):
+        return self.name
+
+
 # names bound (to the same objects) in the tawazi environment and in the reference environment
 from .sym import EQALL, Opaque  # noqa: E402
 
-NAMED_CONSTS = {"OPQ0": Opaque("const", 0), "OPQ1": Opaque("const", 1), "MUT0": Toggle("MUT0"), "MUT1": Toggle("MUT1"), "EQALL": EQALL}
+NAMED_CONSTS = {"OPQ0": Opaque("const", 0), "OPQ1": Opaque("const", 1), "MUT0": Toggle("MUT0"), "MUT1": Toggle("MUT1"), "EQALL": EQALL,
+                "HERE": ThreadFlag("HERE", True), "ELSEWHERE": ThreadFlag("ELSEWHERE", False)}
 
 
 def const_src(v):
@@ -146,7 +166,7 @@ class Gen:
                 # numeric constants only: `'s' % x` is string formatting (a constant), not an operator node
                 return repr(rng.choice([0, 1, 2, 3.5, True, -1]))
             if for_flag and rng.random() < f.get("toggles", 0.12):
-                return rng.choice(["MUT0", "MUT1"])  # constant flag whose truthiness is only known when the call runs
+                return rng.choice(["MUT0", "MUT1", "HERE", "ELSEWHERE"])  # constant flag whose truthiness is only known when (and where) the call runs
             if not for_flag and rng.random() < f.get("opaque_consts", 0.08):
                 return rng.choice(["OPQ0", "OPQ1", "EQALL"])  # identity-sensitive, uncopyable constant / a wildcard that equals everything
             pool = FALSY_TRUTHY if for_flag else CONSTS
